@@ -99,6 +99,10 @@ CODERS = {
     "deflate": [(b"\x04\x01\x08", enc_deflate)],
     "bzip2": [(b"\x04\x02\x02", enc_bzip2)],
     "delta+lzma2": [(b"\x03", enc_delta), (b"\x21", enc_lzma2)],
+    # two size-changing coders in one folder (data -> first -> second -> packed)
+    "deflate>lzma2": [(b"\x04\x01\x08", enc_deflate), (b"\x21", enc_lzma2)],
+    "lzma2>deflate": [(b"\x21", enc_lzma2), (b"\x04\x01\x08", enc_deflate)],
+    "bzip2>copy": [(b"\x04\x02\x02", enc_bzip2), (b"\x00", enc_copy)],
 }
 
 
@@ -205,7 +209,8 @@ def write_archive(members, layout=None):
                         if crc_mode in ("substream", "folder-partial"):
                             unknown.append(zlib.crc32(d))
                         elif crc_mode == "partial":
-                            unknown.append(zlib.crc32(d) if si % 2 == 0 else None)
+                            # a data-dependent irregular pattern (not periodic in the stream index)
+                            unknown.append(zlib.crc32(d) if (si * 5 + len(d)) % 3 != 0 else None)
                         else:
                             unknown.append(None)
                     si += 1
